@@ -1013,6 +1013,23 @@ func (s *Service) copyECObjectRangeByRule(ctx context.Context, dst ChunkWriter, 
 	defer cancel()
 
 	partHdr, firstPartStream, err := s.getECPartStream(stageCtx, cnr, parent, rule, ruleIdx, sortedNodes, 0)
+	for partIdx := 1; err != nil && partIdx < int(rule.DataPartNum+rule.ParityPartNum); partIdx++ {
+		if errors.Is(err, apistatus.ErrObjectAlreadyRemoved) || errors.Is(err, apistatus.ErrObjectAccessDenied) ||
+			errors.Is(err, stageCtx.Err()) || errors.As(err, new(*object.SplitInfoError)) {
+			break
+		}
+		// The first part is unavailable. Any other part carries the parent header
+		// too, the payload itself is recovered below.
+		var rc io.ReadCloser
+		partHdr, rc, err = s.getECPartStream(stageCtx, cnr, parent, rule, ruleIdx, sortedNodes, partIdx)
+		if err == nil {
+			if partHdr.Type() == object.TypeLink {
+				firstPartStream = rc
+			} else if rc != nil {
+				_ = rc.Close()
+			}
+		}
+	}
 	if err != nil {
 		return 0, 0, fmt.Errorf("resolve parent payload length: %w", err)
 	}
